@@ -18,6 +18,11 @@ use ctx::{Ctx, Meta, Report, Tier};
 use std::process::{Command, Stdio};
 use std::time::Instant;
 
+/// an explicit scheduling point for harness-side threads (a reader about to issue a call)
+pub fn sched_point() {
+    inputlayer::verif_hooks::point("harness.before_call");
+}
+
 pub struct Check {
     pub meta: &'static Meta,
     pub run: fn(&mut Ctx),
